@@ -14,6 +14,9 @@ def run(ctx):
         progs.append(amlgen.random_tree(rng, rng.choice([1, 2, 3, 4, 5, 6])))
     # body sizes on both sides of every PkgLength width boundary, nested so that inner width changes shift outer ones
     ranges = [(56, 70), (4084, 4100)]
+    # buffer-size integer widths (255/256, 65535/65536) and 2^16 bytes of package / scope payload
+    progs += amlgen.boundary_trees(rng, [(250, 260)], kinds=["BufferData", "Package", "Scope"], nested=False)
+    progs += amlgen.boundary_trees(rng, [(65525, 65540)], kinds=["BufferData", "Package", "PackageBuilder", "Scope", "Method"], nested=False)
     progs += amlgen.boundary_trees(rng, ranges, kinds=amlgen.FRAMED if th else ["Package", "Scope", "Method", "If", "Device", "BufferData", "Field", "PowerResource"])
     if th:
         progs += amlgen.boundary_trees(rng, [(1048565, 1048580)], kinds=["Scope", "Package", "Method", "BufferData"], nested=False)
